@@ -502,6 +502,7 @@ pub fn run(ctx: &mut Ctx, multi: bool) {
                 _ => 5 + r.below(4) as usize,
             }
         };
+        let mut near_miss: Option<i128> = None;
         let wide = r.chance(1, 15);
         let n_store = if wide { 55 + r.below(60) as usize } else { n };
         let mut store = gen_store(&mut r, n_store, big);
@@ -514,6 +515,18 @@ pub fn run(ctx: &mut Ctx, multi: bool) {
             }
             *hist.entry("wide_wallet".into()).or_default() += 1;
         }
+        if !wide && !store.utxos.is_empty() && r.chance(1, 12) {
+            // large amounts that differ in the last digits: a UTxO a few lovelace short of what will
+            // be asked for, and one that covers it
+            let base = *r.pick(&[1_000_000_000i128, 1_000_000_000_000, 4_000_000_000_000_000]);
+            let n_u = store.utxos.len();
+            store.utxos[0].assets = CanonicalAssets::from_naked_amount(base - 1 - r.below(1000) as i128);
+            if n_u > 1 && r.chance(1, 2) {
+                store.utxos[n_u - 1].assets = CanonicalAssets::from_naked_amount(base * 2);
+            }
+            near_miss = Some(base);
+            *hist.entry("near_miss_at_scale".into()).or_default() += 1;
+        }
         let k = if multi { 1 + r.below(4) as usize } else if r.chance(1, 10) { 2 } else { 1 };
         let names = ["a", "b", "c", "d"];
         let mut blocks = vec![];
@@ -523,6 +536,14 @@ pub fn run(ctx: &mut Ctx, multi: bool) {
             let mut q = if multi && r.chance(1, 2) { shared.clone() } else { gen_query(&mut r, &store, big, !have_coll) };
             if multi && r.chance(1, 3) {
                 q.many = !q.many;
+            }
+            if let Some(base) = near_miss {
+                // ask for the round amount, at the address of the UTxO that is a few lovelace short
+                q.address = Some(store.utxos[0].address.clone());
+                q.min = Some(vec![(AssetClass::Naked, base)]);
+                q.refs = vec![];
+                q.coll = false;
+                q.many = r.chance(1, 4);
             }
             let name = if q.coll {
                 have_coll = true;
